@@ -4,7 +4,7 @@ import numpy as np
 from common import xr, xvec, from_xr, from_xvec
 
 ID = "C07"
-TARGETS = ["Proofs.C07", "Proofs.GenEq.Cmp"]
+TARGETS = ["Proofs.C07", "Proofs.C07Inf", "Proofs.GenEq.Cmp"]
 GEN_PREFIXES = ["cmp."]
 # Proofs.GenEq.Cmp only ties the hand-written model to the source; the C07 theorems are about the model, which is
 # also tied by the exhaustive order-type correspondence (see check.py, tie-only obligations)
@@ -16,6 +16,7 @@ THEOREMS = {
         "C07_threshold_denotes", "C07_threshold_needs_upper", "C07_getIntervals_single",
         "C07_getIntervals_within", "C07_pairs_length", "C07_getIntervals_none", "C07_above_compl",
         "C07_aboveEq_compl", "C07_withinEq_partition", "C07_withinEq_model", "C07_prob", "C07_prob_complement"]],
+    "Proofs.C07Inf": ["VerifModel.C07." + t for t in ["C07_inf_disagree", "C07_agree_behind_filter"]],
     "Proofs.GenEq.Cmp": ["VerifModel.GenEq.Cmp." + t for t in [
         "withinArray_eq", "withinScalar_eq", "applyThreshold_eq", "applyThresholdProb_eq",
         "intervalBody_eq", "intervalBody_unknown"]],
@@ -32,12 +33,18 @@ TRUSTED_BASE = [
 ]
 ASSUMPTIONS = [
     "thresholds are finite numbers; infinite *data* values are missing data for verif (dropped by "
-    "Data.get_scores) so C07_threshold_agrees quantifies over finite or missing values",
+    "Data.get_scores) so C07_threshold_agrees quantifies over finite or missing values; on infinite values the two "
+    "evaluators differ in exactly four cases (C07_inf_disagree: -inf with below/below=, +inf with above/above=: "
+    "apply_threshold says 1, Interval.within says False), which no caller inside verif can reach "
+    "(C07_agree_behind_filter, composed with C04_outputs_valid); that the eight call sites of apply_threshold in "
+    "output.py and the get_intervals(...).within calls take their arrays from Data.get_scores is read off the "
+    "source, not proved",
     "apply_threshold_prob is only called with the below/above family (every caller rejects *within*)",
 ]
 RULE = ("exhaustive over all order types of a value against <=3 thresholds: values "
         "{nan,-inf,0,1/2,1,2,3,7/2,inf}, interval ends from {-inf,0,1,2,3,inf} x 4 closedness flags, "
-        "8 bin types, thresholds {0..3}, scalar and array calls, threshold lists of length 0..4; "
+        "8 bin types, thresholds {0..3}, scalar and array calls, both evaluators side by side on every value "
+        "(cmp.infdiff: differ exactly on -inf/below, -inf/below=, +inf/above, +inf/above=), threshold lists of length 0..4; "
         "an op is non-trivial if its reply contains both an event and a non-event (or is an error/interval list)")
 EXHAUSTIVE = {"quick": True, "thorough": True}
 EXHAUSTIVE_NOTE = "order-type grid enumerated completely in both tiers; thorough adds random rational thresholds/values"
@@ -67,6 +74,10 @@ def gen_ops(tier, rng):
                 yield "cmp.prob", "gtprob %s %s %s" % (b, xr(p), xr(pu))
         for ts in ("none", "-", "1", "0,2", "2,0", "0,1,3", "0,1,2,4", "1,1,2"):
             yield "cmp.intervals", "intervals %s %s" % (b, ts)
+    # both evaluators side by side on every value incl. +-inf (C07_inf_disagree): all bin types, t <= u
+    for b in BINS:
+        for t, u in ((0.0, 0.0), (1.0, 1.0), (1.0, 2.0), (0.0, 3.0), (-2.5, 3.5)):
+            yield "cmp.infdiff", "infcmp %s %s %s %s" % (b, xr(t), xr(u), xs)
     for lo, hi in itertools.product(ENDS, ENDS):
         yield "cmp.center", "center %s %s" % (xr(lo), xr(hi))
     n = 300 if tier == "quick" else 6000
@@ -132,6 +143,16 @@ def impl(op):
             # the callers loop over thresholds with the same (cached) array: the next event would be taken of 0/1
             return "MUTATED-INPUT " + xvec(r)
         return xvec(r)
+    if k == "infcmp":
+        b, t, u = a[1], from_xr(a[2]), from_xr(a[3])
+        xs = np.array(from_xvec(a[4]), float)
+        try:
+            r = verif.util.apply_threshold(xs.copy(), b, t, u)
+        except SystemExit:
+            return "ERR"
+        ts = [t, u] if "within" in b else [t]
+        w = _chars(verif.util.get_intervals(b, np.array(ts))[0].within(xs.copy()), xs)
+        return ";".join("%s:%s" % (xr(float(r[i])), w[i]) for i in range(len(xs)))
     if k in ("tprob", "gtprob"):
         pu = None if a[3] == "-" else np.array([from_xr(a[3])])
         try:
@@ -204,6 +225,19 @@ def judge(op, impl_out, spec_out):
                 return ({"kind": "thresh", "bin": a[1]},
                         "apply_threshold %s: value %s against %s,%s gives %s, documented event says %s" %
                         (a[1], a[4].split(",")[i], a[2], a[3], vals[i] if i < len(vals) else None, want))
+    if a[0] == "infcmp" and not impl_out.startswith("E"):
+        # the two evaluators differ exactly in the four documented (bin type, infinite value) cases
+        cells = impl_out.split(";")
+        xs = a[4].split(",")
+        for i, x in enumerate(xs):
+            thr, w = cells[i].split(":") if i < len(cells) else (None, None)
+            agree = (thr, w) in (("1", "t"), ("0", "f"), ("nan", "m"))
+            expected_diff = (x == "-inf" and a[1] in ("below", "below=")) or (x == "inf" and a[1] in ("above", "above="))
+            if agree == expected_diff or (expected_diff and (thr, w) != ("1", "f")):
+                return ({"kind": "inf-disagree", "bin": a[1]},
+                        "%s, thresholds %s,%s, value %s: apply_threshold gives %s, Interval.within gives %s; the two "
+                        "are documented to %s here" % (a[1], a[2], a[3], x, thr, w,
+                                                        "differ (1 / f)" if expected_diff else "agree"))
     if a[0] == "partition":
         ts = from_xvec(a[1])
         xs = from_xvec(a[2])
@@ -224,12 +258,17 @@ def nontrivial(op, out):
         return "t" in out and "f" in out
     if k in ("thresh", "gthresh"):
         return "1" in out.split(",") and "0" in out.split(",")
+    if k == "infcmp":
+        return "1:f" in out.split(";")
     return True
 
 LEVEL_TEXT = ("Lean theorems: the eight bin types denote the documented relations for every rational threshold "
               "and value, thresholding agrees with interval membership, NaN belongs to no event, 'within=' events "
               "of an increasing threshold list partition (first,last] (induction over the list), above is the "
-              "complement of below=. The comparison kernels are machine-translated from /repo on every run and "
+              "complement of below=; on infinite values thresholding and membership differ in exactly four cases "
+              "(C07_inf_disagree; confirmed on the real functions by stream cmp.infdiff and corpus/C07.txt), none of "
+              "which a caller can see because Data.get_scores returns finite values only (C07_agree_behind_filter, "
+              "using C04_outputs_valid). The comparison kernels are machine-translated from /repo on every run and "
               "proved equal to the model; the remaining glue is tied by an exhaustive order-type correspondence.")
 TECHNIQUE = "Lean 4 proof over a model; model regenerated from source (translator) + exhaustive differential correspondence"
 
